@@ -9,7 +9,7 @@ from vlib.core import Undecided, log
 from props import cons_common as cc
 from props.c01 import load_attacks
 
-WEAK_SOLO = {"PrevoteIgnoresLock": "LockRespected", "UnlockOnOlderPolka": "LockRespected",
+WEAK_SOLO = {"PolProposalOverridesLock": "LockRespected", "PrevoteIgnoresLock": "LockRespected", "UnlockOnOlderPolka": "LockRespected",
              "PrecommitWithoutPolka": "PrecommitJustified", "PrecommitUnheldBlock": "PrecommitJustified",
              "ProposeFreshDespiteValid": "ProposalCarriesValid"}
 
@@ -115,7 +115,7 @@ def run(ctx):
            "random": 50 if quick else 3000, "randlen": 120}
     rows, stats = cc.run_driver(ctx, binp, inp, "solo")
     # the goal witnesses, each continued by 40 random steps, three different continuations each
-    for rep in range(3 if quick else 12):
+    for rep in range(6 if quick else 30):
         wi = dict(inp, scheds=[dict(sc, id=sc["id"] + 1000 * rep) for sc in wsched], random=0, randtail=40)
         rows_w, stats_w = cc.run_driver(ctx, binp, wi, "solo-wit%d" % rep)
         off = max([r["run"] for r in rows] + [0])
